@@ -18,7 +18,7 @@ RULE = ('seeded generator: pupils (even and odd, <= grid) with FFT grids 6..48 p
 ASSUMPTIONS = ['both axes imply one propagation wavelength (isotropic dx*du, or commensurate anisotropic)',
                'pupil no larger than the FFT grid (the regime the FFT propagator supports)']
 PLAN = {'quick': {'gen': 8}, 'thorough': {'gen': 16, 'tests': 1, 'docs': 1}}
-REQUIRED_BUCKETS = ['defaults', 'scratch_shape:band', 'grid:even', 'grid:odd', 'pupil:even', 'pupil:odd', 'pupil-parity!=grid-parity', 'os=1', 'os=2', 'os=3',
+REQUIRED_BUCKETS = ['defaults', 'scratch_shape:band', 'tilted:how=3', 'tilted:how=4', 'grid:even', 'grid:odd', 'pupil:even', 'pupil:odd', 'pupil-parity!=grid-parity', 'os=1', 'os=2', 'os=3',
                     'shape:none', 'shape:explicit', 'aniso', 'scratch:exact', 'scratch:larger', 'scratch:dirty',
                     'scratch:too-small', 'shape:too-large', 'tilted', 'dir:image->pupil', 'segmented', 'segmented:bbox-overlap', 'scratch:non-finite', 'canvas', 'shape:small-int', 'scalars:float32']
 REQUIRED_ANCHORS = ['anchor:_fft_shape', 'anchor:_fft2', 'anchor:_has_tilt', 'anchor:scratch_shape', 'probe:propagate_fft',
@@ -288,14 +288,27 @@ def workload(ctx, lentil):
         # tilt metadata -> refused
         if i % 3 == 0:
             ctx.bucket('tilted')
-            how = i % 9 // 3
-            if how == 0:
+            how = i % 15 // 3
+            if how == 3:
+                # tilt metadata of the other kinds: a dispersive element (no x / y angles at all) ...
+                import warnings as _w
+                with _w.catch_warnings():
+                    _w.simplefilter('ignore')
+                    wt = w * [lentil.DispersiveTilt, lentil.Grism][(i // 15) % 2](trace=[1.0, 0.0], dispersion=[1e-4, 5e-7])
+            elif how == 4:
+                # ... and a user's own implementation of the tilt interface
+                class _MyTilt(lentil.plane.TiltInterface):
+                    def shift(self, xs=0, ys=0, z=0, **kwargs):
+                        return xs + 1e-6 * z, ys
+                wt = w * _MyTilt()
+            elif how == 0:
                 wt = w * lentil.Tilt(x=1e-6, y=-2e-6)
             elif how == 1:
                 wt = lentil.Wavefront(wl, tilt=[1e-6, 0]) * lentil.Pupil(amplitude=amp, opd=opd, pixelscale=dx, focal_length=z)
             else:
                 rr = (np.arange(pshape[0]) - pshape[0] // 2)[:, None] * 1e-9 + np.zeros(pshape)
                 wt = lentil.Wavefront(wl) * lentil.Pupil(amplitude=amp, opd=opd + rr, pixelscale=dx, focal_length=z).fit_tilt()
+            ctx.bucket(f'tilted:how={how}')
             ctx.expect_raises('tilt-refused', (NotImplementedError,),
                               lambda: lentil.propagate_fft(wt, du, **kw), 'tilt|refusal',
                               'a wavefront carrying tilt metadata was not refused by propagate_fft', dict(desc, how=how))
